@@ -569,7 +569,7 @@ def check_io(pid, tier, seed, scratch, replay):
             rep.add_mc(c, r)
     collect(rep, v1, pid, nontrivial=lambda ev: len(ev["sched"]) >= 2 or ev["sched"][:1] and ev["sched"][0]["k"] != "ok",
             key=lambda ev: [ev["kind"], ev["doc"], ev["len"], ev["sched"]], is_first=lambda ev: True)
-    collect(rep, v2, pid, nontrivial=lambda ev: ev["kind"] != "deliver" or ev["sched"] != "all-at-once",
+    collect(rep, v2, pid, nontrivial=lambda ev: ev["kind"] != "deliver" or ev["sched"] != "bytes.Reader",
             key=lambda ev: [ev["kind"], ev["fmt"], ev["doc"], ev["sched"], ev["k"], ev["n"]], is_first=lambda ev: True)
     rep.extra["enumerated_by_tlc"] = sum(vlib.count_lines(t) for t in t1)
     rep.extra["end_to_end_events"] = sum(vlib.count_lines(t) for t in t2)
